@@ -176,18 +176,17 @@ func (c *clientHelloConn) Read(b []byte) (n int, err error) {
 		return // need to read more bytes for header
 	}
 
-	// read the header bytes
-	hdr := make([]byte, 5)
-	_, err = io.ReadFull(c.buf, hdr)
-	if err != nil {
-		return // this would be highly unusual and sad
-	}
+	// look at the header bytes, but leave them in the buffer until
+	// the whole message has arrived: this method is called again
+	// for every read, and must find the header still in place then
+	hdr := c.buf.Bytes()[:5]
 
 	// get length of the ClientHello message and read it
 	length := int(uint16(hdr[3])<<8 | uint16(hdr[4]))
-	if c.buf.Len() < length {
+	if c.buf.Len() < 5+length {
 		return // need to read more bytes
 	}
+	c.buf.Next(5)
 	hello := make([]byte, length)
 	_, err = io.ReadFull(c.buf, hello)
 	if err != nil {
